@@ -1,7 +1,7 @@
 (** C22 — display limits return the top of the ranked result.
     Model: Model/Truncate.v (index/limit.go, SortFiles/boostNovelExtension, search/aggregate.go).
     Proofs: Proofs/Truncate.v. *)
-From ZV Require Import Lib.Base Model.Truncate Proofs.Truncate.
+From ZV Require Import Lib.Base Model.Truncate Proofs.Truncate Proofs.TruncateInc.
 
 (** ---- 1. One DisplayTruncator call (SortAndTruncateFiles after SortFiles; Search's final step).
     For every option set and every ranked result list [fs] on which the truncator does not panic:
@@ -158,6 +158,61 @@ Theorem C22_incremental_equals_batch_refuted_converse :
 Proof. eexists. eexists. repeat split; vm_compute; reflexivity. Qed.
 Print Assumptions C22_incremental_equals_batch_refuted_converse.
 
+(** ---- 6b. DOCUMENT limits only (MaxDocDisplayCount > 0, no match limit).  Statement that was to be proved:
+      forall o bs, doc_only o -> distinct_scores (concat bs) -> collect o bs = batch o bs
+    It is false on the faithful model as well — the same mechanism as finding 1 needs three extensions here:
+    MaxDocDisplayCount = 3; first chunk a.go 1000, b.go 990, c.go 980, p.py 970, x.rb 960: p.py is promoted
+    into third place, c.go and x.rb are dropped; second chunk y.py 995 enters the top two, so that p.py is no
+    longer novel: the final ranking of everything promotes x.rb (a.go, y.py, x.rb), the incremental aggregate
+    has lost it (a.go, y.py, b.go).  Replayed on the implementation by case 1 of TestVerifC22Collect. *)
+Definition w_batches3 : list (list file) :=
+  [[w_file 1 1000 0 1; w_file 2 990 0 1; w_file 3 980 0 1; w_file 4 970 1 1; w_file 5 960 2 1]; [w_file 6 995 1 1]].
+Definition w_opts3 : topts := {| o_doc := 3; o_match := 0; o_chunk := false |}.
+Theorem C22_incremental_equals_batch_doclimit_refuted :
+  doc_only w_opts3 /\ distinct_scores (concat w_batches3) /\
+  exists r1 r2, collect w_opts3 w_batches3 = Ok r1 /\ batch w_opts3 w_batches3 = Ok r2 /\
+                map f_id r1 = [1;6;2]%N /\ map f_id r2 = [1;6;5]%N.
+Proof.
+  split; [split; reflexivity|]. split.
+  - unfold distinct_scores. vm_compute. repeat constructor; simpl; intuition discriminate.
+  - eexists. eexists. repeat split; vm_compute; reflexivity.
+Qed.
+Print Assumptions C22_incremental_equals_batch_doclimit_refuted.
+
+(** what does hold under a document limit only: with pairwise distinct scores (the property is "up to ties"),
+    whenever the novel-extension promotion cannot change the first MaxDocDisplayCount files of a ranking of
+    files of the result, ranking and truncating after every chunk IS the batch result — for any number of
+    chunks of any sizes (proof: insertion into the ranked list commutes with truncation).  Two instances:
+    MaxDocDisplayCount <= 2 (the promotion starts at third place), and results of a single extension. *)
+Theorem C22_incremental_equals_batch_doclimit_partial : forall o bs,
+  doc_only o -> distinct_scores (concat bs) ->
+  boost_inert (Z.to_nat (o_doc o)) (concat bs) ->
+  collect o bs = batch o bs.
+Proof. exact collect_doclimit_inert. Qed.
+Print Assumptions C22_incremental_equals_batch_doclimit_partial.
+
+Theorem C22_incremental_equals_batch_doclimit_le2 : forall o bs,
+  doc_only o -> (o_doc o <= 2)%Z -> distinct_scores (concat bs) -> collect o bs = batch o bs.
+Proof.
+  intros o bs DO H2 ND. apply collect_doclimit_inert; auto. apply boost_inert_le2. lia.
+Qed.
+Print Assumptions C22_incremental_equals_batch_doclimit_le2.
+
+Theorem C22_incremental_equals_batch_doclimit_one_extension : forall o bs e,
+  doc_only o -> distinct_scores (concat bs) -> Forall (fun f => f_ext f = e) (concat bs) ->
+  collect o bs = batch o bs.
+Proof.
+  intros o bs e DO ND HE. apply collect_doclimit_inert; auto. eapply boost_inert_one_ext; eauto.
+Qed.
+Print Assumptions C22_incremental_equals_batch_doclimit_one_extension.
+
+(** the ranking step alone (no promotion): the top D of "top D so far + new chunk" is the top D of everything *)
+Theorem C22_top_of_ranked_incremental : forall D P b,
+  distinct_scores (P ++ b) ->
+  firstn D (sort_desc (firstn D (sort_desc P) ++ b)) = firstn D (sort_desc (P ++ b)).
+Proof. exact top_step. Qed.
+Print Assumptions C22_top_of_ranked_incremental.
+
 (** what does hold for the collecting path: a single chunk, or no display limit, gives the batch result *)
 Theorem C22_collect_single_or_unlimited : forall o bs,
   (exists b, bs = [b]) \/ has_limits o = false -> collect o bs = batch o bs.
@@ -201,3 +256,24 @@ Example ex_chunk_eof_hyps :
   cm_content w_eof = unlines [[109;49];[109;50]]%N ++ [120]%N /\
   cut_chunk w_eof 1 = Ok {| cm_content := [109;49;10;109;50]%N; cm_ranges := [(1,1)]%N; cm_sym := false |}.
 Proof. split; vm_compute; reflexivity. Qed.
+(* non-vacuity of 6b: three chunks, MaxDocDisplayCount = 2 with three extensions; MaxDocDisplayCount = 3 with one extension *)
+Definition ex_batches_doc : list (list file) :=
+  [[w_file 1 1000 0 1; w_file 2 990 1 1; w_file 3 980 2 1]; []; [w_file 4 995 2 1; w_file 5 900 0 2]; [w_file 6 1001 1 1]].
+Example ex_doclimit_le2 :
+  doc_only {| o_doc := 2; o_match := 0; o_chunk := false |} /\ distinct_scores (concat ex_batches_doc) /\
+  exists r, collect {| o_doc := 2; o_match := 0; o_chunk := false |} ex_batches_doc = Ok r /\ map f_id r = [6;1]%N.
+Proof.
+  split; [split; reflexivity|]. split.
+  - unfold distinct_scores. vm_compute. repeat constructor; simpl; intuition discriminate.
+  - eexists. split; vm_compute; reflexivity.
+Qed.
+Definition ex_batches_one : list (list file) :=
+  [[w_file 1 1000 0 1; w_file 2 990 0 1; w_file 3 980 0 1; w_file 4 970 0 1]; [w_file 5 995 0 1]].
+Example ex_doclimit_one_ext :
+  Forall (fun f => f_ext f = 0%N) (concat ex_batches_one) /\ distinct_scores (concat ex_batches_one) /\
+  exists r, collect w_opts3 ex_batches_one = Ok r /\ map f_id r = [1;5;2]%N.
+Proof.
+  split; [repeat constructor|]. split.
+  - unfold distinct_scores. vm_compute. repeat constructor; simpl; intuition discriminate.
+  - eexists. split; vm_compute; reflexivity.
+Qed.
